@@ -17,6 +17,7 @@ import (
 	"sort"
 	"strconv"
 	"strings"
+	"time"
 
 	"golang.org/x/crypto/argon2"
 	"golang.org/x/crypto/scrypt"
@@ -414,7 +415,7 @@ func (h *vHist) exec(o vOp) (obsOK bool) {
 		}
 	case "auth":
 		h.prepAuth(o.u, o.pw)
-		ok, adm, upg, lc, _ := h.dir.Authenticate(o.u, string(o.pw))
+		ok, adm, upg, lc := vAuthWatched(h, o.u, string(o.pw))
 		if ok {
 			obs = fmt.Sprintf("(OAuth true %s %s %s)", cB(adm), cB(upg), cZ(lc.Unix()))
 			res = "ok"
@@ -588,4 +589,36 @@ func vBigAux(n int, finalNL bool) []byte {
 		b = b[:len(b)-1]
 	}
 	return b
+}
+
+// "never a success, a crash or a hang": authentication runs under a watchdog; a call that does not
+// return is a reported input (and counts as a refusal for the rest of the history).
+var vHangs []string
+
+func vAuthWatched(h *vHist, u, pw string) (bool, bool, bool, time.Time) {
+	type ar struct {
+		ok, adm, upg bool
+		lc           time.Time
+	}
+	if len(vHangs) >= 3 {
+		return false, false, false, time.Time{} // the agent would be wedged already: enough evidence
+	}
+	ch := make(chan ar, 1)
+	go func() {
+		ok, adm, upg, lc, _ := h.dir.Authenticate(u, pw)
+		ch <- ar{ok, adm, upg, lc}
+	}()
+	select {
+	case r := <-ch:
+		return r.ok, r.adm, r.upg, r.lc
+	case <-time.After(8 * time.Second):
+		content := []byte(nil)
+		for _, ext := range []string{".admin", ".user"} {
+			if b, err := os.ReadFile(filepath.Join(h.base, u+ext)); err == nil {
+				content = b
+			}
+		}
+		vHangs = append(vHangs, fmt.Sprintf("Authenticate(%q, %q) did not return within 8 s; the user's hash file holds %d bytes: %q", u, pw, len(content), string(truncate(content, 80))))
+		return false, false, false, time.Time{}
+	}
 }
